@@ -1,6 +1,115 @@
-(* C02 — Unread request bodies never turn into requests.  Statements only. *)
-From FH Require Import Model.Base Model.BodyConsume Spec.BodyConsumeSpec.
+(* C02 — Unread request bodies never turn into requests.  Statements only; proofs live in
+   Proof/BodyConsumeProof.v.  Model: Model/BodyConsume.v (serveConnCounted's body reading, Expect
+   branch, handler call, post-handler drain, requestStream.Read); spec: Spec/BodyConsumeSpec.v.
+
+   The full statement ("for EVERY handler behaviour ...") is FALSE of the code as it is: see the
+   _refuted theorems (findings stream-detached-undrained, timeout-stream-undrained,
+   stream-error-not-sticky).  It is proved under the exact guard `safe`: when the handler was given
+   a live request stream, it leaves it attached to the request (no CloseBodyStream / ResetBody /
+   SetBody... / TimeoutError) and none of its Read calls returned an error other than io.EOF. *)
+From FH Require Import Model.Base Model.BodyConsume Spec.BodyConsumeSpec Proof.BodyConsumeProof.
 Open Scope Z_scope.
 
-Example C02_ex_placeholder : framed_len (FFixed 3) = Some 3.
-Proof. reflexivity. Qed.
+(* Whatever the configuration (StreamRequestBody on/off, MaxRequestBodySize, GetOnly, multipart
+   pre-parsing, expectation callbacks, keep-alive), framing (none / Content-Length / any chunk split,
+   extensions, trailer, broken chunk terminators), body size and handler reads (none, k bytes, to EOF):
+   if the connection is kept alive, the next head parse starts exactly at the end of the framed body;
+   in particular a body without an end is never followed by another parse. *)
+Theorem C02_next_starts_at_body_end : forall c r evs off,
+  wf_cfg c -> wf_req r -> r_lim r = None -> safe c r ->
+  serve_one c r = (evs, Some off) -> framed_len (r_fr r) = Some off.
+Proof. exact next_starts_at_body_end. Qed.
+Print Assumptions C02_next_starts_at_body_end.
+
+(* the guard in terms of inputs: any reading behaviour on a body that has an end, and not reading at
+   all on any body, is safe as long as the handler leaves the stream attached *)
+Theorem C02_safe_of_inputs : forall c r,
+  wf_cfg c -> wf_req r -> r_lim r = None -> kept r = true ->
+  (framed_len (r_fr r) <> None \/ r_rd r = RNone) -> safe c r.
+Proof. exact safe_of_inputs. Qed.
+Print Assumptions C02_safe_of_inputs.
+
+(* the unguarded statement is false: a handler that detaches the stream (witness), calls TimeoutError,
+   or reads into a broken chunk terminator leaves the server parsing at offset 8192 of a 10000-byte body
+   (resp. keeps the connection after a body that has no end) *)
+Theorem C02_next_starts_at_body_end_refuted :
+  exists c r evs off, wf_cfg c /\ wf_req r /\ r_lim r = None /\
+    serve_one c r = (evs, Some off) /\ framed_len (r_fr r) <> Some off.
+Proof. exact next_starts_at_body_end_refuted. Qed.
+Print Assumptions C02_next_starts_at_body_end_refuted.
+
+Theorem C02_refuted_witnesses :
+  (snd (serve_one wit_cfg wit_detach) = Some 8192 /\ framed_len (r_fr wit_detach) = Some 10000) /\
+  (snd (serve_one wit_cfg wit_timeout) = Some 8192 /\ framed_len (r_fr wit_timeout) = Some 10000) /\
+  (snd (serve_one wit_cfg wit_sticky) = Some 84 /\ framed_len (r_fr wit_sticky) = None).
+Proof. exact (conj refuted_detach (conj refuted_timeout refuted_sticky)). Qed.
+Print Assumptions C02_refuted_witnesses.
+
+(* After a rejected expectation (ExpectHandler answering anything but 100, or ContinueHandler
+   answering false) the iteration consists of the server's own response carrying Connection: close
+   and the connection is finished: no handler call, no "100 Continue", no further parse — for every
+   request, configuration, body and amount of body already sent. *)
+Theorem C02_rejected_expectation_closes : forall c r,
+  expectation_rejected c r = true ->
+  exists status, serve_one c r = ([EResp status true], None).
+Proof. exact rejected_expectation_closes. Qed.
+Print Assumptions C02_rejected_expectation_closes.
+
+(* Whole connections, any number of pipelined requests: every head parse starts at a message
+   boundary and the server never goes on at another offset. *)
+Theorem C02_body_bytes_never_parsed : forall c, wf_cfg c -> forall rs base,
+  Forall wf_req rs -> Forall (fun r => r_lim r = None) rs -> Forall (safe c) rs ->
+  forall e, In e (serve c rs base) ->
+    match e with
+    | EParse off => In off (boundaries base rs)
+    | EDesync _ _ _ => False
+    | _ => True
+    end.
+Proof. exact body_bytes_never_parsed. Qed.
+Print Assumptions C02_body_bytes_never_parsed.
+
+(* ... and a message boundary is never strictly inside a request (head or body) *)
+Theorem C02_boundary_not_inside : forall rs, Forall wf_lens rs -> forall base off,
+  In off (boundaries base rs) -> inside_some_message base rs off = false.
+Proof. exact boundary_not_inside. Qed.
+Print Assumptions C02_boundary_not_inside.
+
+Theorem C02_body_bytes_never_parsed_refuted :
+  exists c rs id rel off, Forall wf_req rs /\ Forall (fun r => r_lim r = None) rs /\
+    In (EDesync id rel off) (serve c rs 0) /\ inside_some_message 0 rs off = true.
+Proof. exact body_bytes_never_parsed_refuted. Qed.
+Print Assumptions C02_body_bytes_never_parsed_refuted.
+
+(* The trace the model produces for any connection satisfies the property oracle `judge` — the
+   same function Check/C02Check.v evaluates on the implementation's observed trace. *)
+Theorem C02_model_trace_judged : forall c, wf_cfg c -> forall rs base,
+  Forall wf_req rs -> Forall (fun r => r_lim r = None) rs -> Forall (safe c) rs ->
+  judge c rs (filter visible (serve c rs base)) = true.
+Proof. intros c Wc rs base W L S. exact (proj1 (model_trace_judged c Wc rs base W L S)). Qed.
+Print Assumptions C02_model_trace_judged.
+
+(* partial: requests whose body is cut off by the peer (r_lim = Some a) are modelled and compared
+   with the implementation on every run (the server ends up at the end of input or parses what was
+   sent of the body, see the findings), but the theorems above are stated for complete inputs. *)
+
+(* non-vacuity *)
+Example C02_ex_stream_ignored_body :
+  serve wit_cfg [mkReq 1 58 false false false (FFixed 10000) None None 0 false RNone FinNone;
+                 mkReq 2 29 true false false FNone None None 0 false RNone FinNone] 0
+  = [EParse 0; EDispatch 1 0 RcOk; EResp 200 false; EParse 10058; EDispatch 2 0 RcOk; EResp 200 false; EClose].
+Proof. vm_compute. reflexivity. Qed.
+Example C02_ex_too_big_closes :
+  serve wit_cfg [mkReq 1 58 false false false (FFixed 40002) None None 0 false (RUpTo 100) FinNone;
+                 mkReq 2 29 true false false FNone None None 0 false RNone FinNone] 0
+  = [EParse 0; EDispatch 1 100 RcOk; EResp 200 true; EClose].
+Proof. vm_compute. reflexivity. Qed.
+Example C02_ex_rejected :
+  serve (mkCfg true 20000 false true false true false)
+        [mkReq 1 80 false false true (FFixed 64) None None 0 false RNone FinNone;
+         mkReq 2 29 true false false FNone None None 0 false RNone FinNone] 0
+  = [EParse 0; EResp 417 true; EClose].
+Proof. vm_compute. reflexivity. Qed.
+Example C02_ex_judge_rejects_smuggling :
+  judge wit_cfg [wit_detach; mkReq 2 29 true false false FNone None None 0 false RNone FinNone]
+        [EDispatch 1 0 RcOk; EResp 200 false; EDispatch 1000256 0 RcOk; EResp 200 false] = false.
+Proof. vm_compute. reflexivity. Qed.
